@@ -93,6 +93,17 @@ Record action := mkAction {
 Definition type_code (ft : ftype) : nat := match ft with FLeaf t => t | FStruct tid _ => tid end.
 Definition is_struct (ft : ftype) : bool := match ft with FStruct _ _ => true | _ => false end.
 
+(* addFieldFiller: which parameter of a post-action function stands for the struct field.  Every
+   candidate (parameter i, field | pointer to field) is scored, an exact type match scores best and a
+   candidate that is not strictly better than the best so far is rejected: the first parameter whose
+   type is the field's type (or a pointer to it) is the field, the others are injected from the chain.
+   params: (type code of T, the parameter is *T). *)
+Fixpoint field_param (t : nat) (params : list (nat * bool)) (i : nat) : option (nat * bool) :=
+  match params with
+  | [] => None
+  | (ty, p) :: r => if ty =? t then Some (i, p) else field_param t r (S i)
+  end.
+
 Record fstate := mkFstate { fs_skip : bool; fs_noSkip : bool; fs_whole : bool; fs_hard : bool;
                             fs_acts : list (nat * list nat * bool) }.   (* action id, path, addressOf *)
 
